@@ -441,17 +441,14 @@ func zzH13_index_badtype() {
 // are structural choices from small sets, because rangeLen divides by s*st
 // (64-bit division by a symbolic divisor does not finish). Overflowing ranges: C10.
 //
+// Thorough tier only (the 64-bit divisions by constants cost ~5 s of solver time per path).
+//
 //verif:unwind 40
+//verif:thorough
 func zzH13_slice_range() {
-	thorough := zzParam("range_full", 0, 1) == 1
 	ns := []int{0, 3}
 	svals := []int{-1, 2}
 	stvals := []int{0, -2} // 0 = None
-	if thorough {
-		ns = []int{0, 1, 2, 3, 4, 5}
-		svals = []int{-3, -1, 1, 2}
-		stvals = []int{0, -2, -1, 1, 3}
-	}
 	n := ns[zzChoice("n", len(ns))]
 	s := svals[zzChoice("s", len(svals))]
 	a := zzInt("a")
